@@ -50,21 +50,6 @@ def finishKeys : List Bytes :=
   [bs "hostname", bs "mapname", bs "maptitle", bs "AdminEMail", bs "AdminName", bs "admin", bs "password", bs "gametype",
    bs "gamever", bs "tournament"]
 
-theorem hasKey_of_mapGet_none {m : Map Bytes} {k : Bytes} (h : mapGet m k = none) : ¬ HasKey m k := by
-  induction m with
-  | nil => exact not_hasKey_nil k
-  | cons p r ih =>
-    rw [mapGet_cons] at h
-    by_cases hp : p.1 = k
-    · simp [hp] at h
-    · have : (p.1 == k) = false := by simpa using hp
-      rw [this] at h
-      simp only [Bool.false_eq_true, ↓reduceIte] at h
-      intro hk
-      rcases hasKey_cons.mp hk with h1 | h1
-      · exact hp h1
-      · exact ih h h1
-
 section
 variable {y : Style} {st : State}
 
